@@ -3,6 +3,7 @@ package checks
 import (
 	"fmt"
 	"os"
+	"strconv"
 	"strings"
 	"unicode/utf8"
 
@@ -254,7 +255,8 @@ func (j *stringsJob) DescribeSub(unit, tick int) map[string]interface{} {
 	j.probe = func(s, family string) bool {
 		n++
 		if n == tick {
-			found = map[string]interface{}{"path": s, "family": family, "config": "either", "sig": tokenShape(s)}
+			found = strCase(s, "either", family)
+			found["sig"] = tokenShape(s)
 		}
 		return true
 	}
@@ -303,7 +305,7 @@ func (j *stringsJob) one(c *run.Ctx, s string, family string) {
 					Sig:    kind + ":" + cfgName + ":" + tokenShape(s),
 					Detail: fmt.Sprintf("Parse(%q) with config %s: %s", s, cfgName, detail),
 					Size:   len(s),
-					Case:   map[string]interface{}{"path": s, "config": cfgName, "family": family},
+					Case:   strCase(s, cfgName, family),
 				})
 			} else if pr.F == nil && pr.ErrType != "ErrorInvalidSyntax" {
 				c.Sample(map[string]interface{}{"path": s, "config": cfgName, "error": pr.ErrMsg})
@@ -333,9 +335,31 @@ func (j *stringsJob) one(c *run.Ctx, s string, family string) {
 			Sig:    kind + ":" + classOf(s) + ":" + tokenShape(s),
 			Detail: fmt.Sprintf("Parse(%q) with config %s: %s", s, cfgName, detail),
 			Size:   len(s),
-			Case:   map[string]interface{}{"path": s, "config": cfgName, "family": family},
+			Case:   strCase(s, cfgName, family),
 		})
 	}
+}
+
+// strCase records a string case; a path that is not valid UTF-8 cannot travel through JSON
+// unchanged, so it is stored as a Go-quoted literal instead.
+func strCase(s, cfgName, family string) map[string]interface{} {
+	cs := map[string]interface{}{"config": cfgName, "family": family}
+	if utf8.ValidString(s) {
+		cs["path"] = s
+	} else {
+		cs["path_quoted"] = strconv.Quote(s)
+	}
+	return cs
+}
+
+func strOfCase(cs map[string]interface{}) string {
+	if q, ok := cs["path_quoted"].(string); ok {
+		if s, err := strconv.Unquote(q); err == nil {
+			return s
+		}
+	}
+	s, _ := cs["path"].(string)
+	return s
 }
 
 // judgeC17 compares the library's outcome with the prediction from the grammar.
@@ -444,7 +468,7 @@ func registerStrings(id string, withModel bool, level, rule string, assumptions 
 			}
 		},
 		Replay: func(cs map[string]interface{}) (bool, string) {
-			s, _ := cs["path"].(string)
+			s := strOfCase(cs)
 			env := impl.NewEnv()
 			var cfg *jsonpath.Config
 			mcfg := pmodel.Config{}
